@@ -99,6 +99,27 @@ func (p Payload) Bytes() []byte {
 			b[i] = unit[i%k]
 		}
 		return b
+	case "pmis":
+		// period A with a mismatching byte every 30..70 positions
+		r := NewRng(p.Seed)
+		k := p.A
+		if k < 1 {
+			k = 1
+		}
+		unit := NewRng(p.Seed ^ 0x5bd1e995).Bytes(k)
+		for i := range unit {
+			unit[i] = 'a' + unit[i]%16
+		}
+		b := make([]byte, p.N)
+		next := r.Range(30, 70)
+		for i := range b {
+			b[i] = unit[i%k]
+			if i >= k && i == next {
+				b[i] ^= byte(1 + r.Intn(15))
+				next += r.Range(30, 70)
+			}
+		}
+		return b
 	case "dup":
 		x := p.Parts[0].Bytes()
 		return append(append(make([]byte, 0, 2*len(x)), x...), x...)
